@@ -417,6 +417,15 @@ def judge(case, t: Tally, verbose=False):
             return out
         if ref.status == "hello":
             j_agree(t, out, ref.hello, case, f)
+        elif case.get("foreign") or (ref.status == "invalid" and ref.reason == "record content type"):
+            # before the hello is complete the flight contains a record that is not a handshake record of a TLS/DTLS
+            # version (application data, alert, CCS, other version, plain garbage): no TLS reader reads a ClientHello
+            # out of that, so reporting one (spliced together across the foreign record) disagrees with every reader
+            if case.get("foreign") and proto == "tls" and ref.status != "invalid":
+                # the inserted bytes happen to look like a handshake record header: not a foreign record after all
+                t.note("generated foreign record reads as a handshake record; case not judged")
+                return out
+            t.judge("foreign_record_not_spliced", out[0] != "hello", f, case, "invalid (or incomplete)", list(out))
         elif out[0] == "hello":
             t.add("lenient_accepts_(tlsref_rejects_mitmproxy_parses)")
         if case.get("base") is not None:
@@ -616,6 +625,46 @@ def w_subst(item, t):
                 t.case(None, nontrivial_len(proto, d), "substL|%s|%d|%s|%d|%d" % (src, i, proto, pos, v))
 
 
+def _rec(proto, ctype, version, payload, seqno=1):
+    if proto == "tls":
+        return bytes([ctype]) + R.u16(version) + R.u16(len(payload)) + payload
+    return bytes([ctype]) + R.u16(version) + b"\x00\x00" + seqno.to_bytes(6, "big") + R.u16(len(payload)) + payload
+
+
+# second / third records that are not handshake records of this protocol: (content type, record version) per protocol;
+# None stands for bytes that are no record at all
+FOREIGN = {
+    "tls": [(0x17, 0x0303), (0x15, 0x0303), (0x14, 0x0303), (0x16, 0x0404), (0x16, 0x0200), (0x16, 0xFEFD), None],
+    "dtls": [(0x17, 0xFEFD), (0x15, 0xFEFD), (0x14, 0xFEFD), (0x16, 0x0303), (0x16, 0xFE00), None],
+}
+
+
+def w_foreign(item, t):
+    """a valid hello whose first handshake record carries only msg[:cut]; then a foreign record - carrying the rest of
+    the hello (so that splicing would 'work'), or two bytes followed by a genuine handshake record with the rest"""
+    _, src, i, proto, cuts = item
+    name, tb, db = base_of(src, i)
+    msg = R.hs_tls(tb) if proto == "tls" else R.hs_dtls(db)
+    hv = 0x0301 if proto == "tls" else 0xFEFD
+    for cut in cuts:
+        first = _rec(proto, 0x16, hv, msg[:cut], 0)
+        for fi, fr in enumerate(FOREIGN[proto]):
+            if fr is None:
+                streams = [first + b"GET / HTTP/1.1\r\nHost: example.com\r\n\r\n" + msg[cut:],
+                           first + msg[cut:]]
+            else:
+                ct, ver = fr
+                streams = [first + _rec(proto, ct, ver, msg[cut:]),
+                           first + _rec(proto, ct, ver, b"\x01\x00") + _rec(proto, 0x16, hv, msg[cut:], 2),
+                           first + _rec(proto, ct, ver, msg[cut:cut + 1]) + _rec(proto, 0x16, hv, msg[cut + 1:], 2) if cut + 1 < len(msg) else None]
+            for vi, d in enumerate(streams):
+                if d is None:
+                    continue
+                case = {"proto": proto, "kind": "foreign", "split": "records", "mode": "direct", "segs": [d], "foreign": True}
+                judge(case, t)
+                t.case(case if (cut == 3 and fi == 0 and vi == 0) else None, True, "foreign|%s|%d|%s|%d|%d|%d" % (src, i, proto, cut, fi, vi))
+
+
 def w_trunc(item, t):
     """every truncation of the hello body, re-framed so that the record and handshake lengths are consistent
     (the truncated body reaches the kaitai parser), and with only the record length re-framed"""
@@ -746,6 +795,18 @@ def plan(ctx):
                 bounds = list(itertools.accumulate(len(r) for r in recs))[:-1]
                 for sub in itertools.chain.from_iterable(itertools.combinations(bounds, r) for r in range(len(bounds) + 1)):
                     items.append(("dseg", src, i, rc, sub))
+    # multi-record flights whose second / third record is not a handshake record (other content type, other version,
+    # no record at all): every cut for the default hello and two neighbours (thorough: every base), boundary cuts otherwise
+    for src, idxs, protos in (("core", range(ncore), ("tls", "dtls")), ("ssl", ssl_sel, ("tls",)), ("odtls", range(ndtls), ("dtls",))):
+        for i in idxs:
+            for proto in protos:
+                n = frag_len(src, i, "tls" if proto == "tls" else "dtls-raw")
+                if (src == "core" and i < 3) or not q:
+                    cl = list(range(1, n))
+                else:
+                    cl = sorted({1, 3, 4, 5, 12, 13, n // 2, n - 1})
+                for lo in range(0, len(cl), 16):
+                    items.append(("foreign", src, i, proto, cl[lo:lo + 16]))
     # totality
     vals_q = [0x00, 0x01, 0x03, 0x10, 0x16, 0x7F, 0x80, 0xFF]
     allv = list(range(256))
@@ -779,6 +840,7 @@ def plan(ctx):
         "grammar_hellos": len(ALL), "grammar": "sni %d x alpn %d x other %d x order %d x fixed-part (%s)" % (
             len(SNI_FORMS), len(ALPN_FORMS), len(OTHER_FORMS), len(ORDERS), "one-deviates" if q else "full product 2x2x3x2"),
         "core_bases": ncore, "ssl_bases": nssl, "openssl_dtls_bases": ndtls,
+        "foreign_records": {p: ["garbage" if x is None else "%02x/%04x" % x for x in v] for p, v in FOREIGN.items()},
         "record_cuts_max": kf, "tcp_cuts_max": ks, "tcp_cuts_deep_bases": "core 0-5 (2 fragmentations) + ssl[9]",
         "ssl_bases_in_cut_enumerations": ssl_sel, "dtls_two_cut_bases": "core 0-5",
         "substitution_values": "256 for %s bases, %d for the others" % ("all %d" % len(subst_bases) if not q else "2", len(vals_q)),
@@ -801,6 +863,7 @@ def w_dseg(item, t):
 
 
 WORKERS["dseg"] = w_dseg
+WORKERS["foreign"] = w_foreign
 
 
 def run(ctx):
